@@ -246,8 +246,10 @@ class FirstOrderFD(BaseGradientApproximator):
         else:
             upper_bounds = self._design_space.get_upper_bounds()
 
+        # Flip the step of a component whose perturbation would exceed its upper bound.
         steps = where(
-            input_perturbations[input_indices, range(n_indices)] >= upper_bounds,
+            input_perturbations[input_indices, range(n_indices)] + step
+            > upper_bounds[list(input_indices)],
             -step,
             step,
         )
